@@ -98,7 +98,7 @@ def main():
         checks=checks,
         not_applicable=na,
         notes='See DESIGN.md. ./check <id> --tier quick|thorough; exit 0 held, 1 violation, 2 machinery failure.')
-    with open(os.path.join(os.path.dirname(os.path.abspath(__file__)), 'MANIFEST.json'), 'w') as f:
+    with open(os.path.join(os.path.dirname(os.path.dirname(os.path.abspath(__file__))), 'MANIFEST.json'), 'w') as f:
         json.dump(m, f, indent=1)
         f.write('\n')
 
